@@ -102,6 +102,12 @@ def build_ocaml():
     rc, out = run("ocamlfind ocamlopt -w -a model.mli model.ml driver.ml -o driver", cwd=OCAML, timeout=600)
     if rc != 0:
         raise BuildError("ocamlopt failed:\n" + out[-3000:])
+    # instrumented copy for model branch coverage (thorough tier); failure here is not fatal
+    prof = os.path.join(OCAML, "prof")
+    os.makedirs(prof, exist_ok=True)
+    for s_ in srcs:
+        shutil.copyfile(s_, os.path.join(prof, os.path.basename(s_)))
+    run("ocamlfind ocamloptp -P a -w -a model.mli model.ml driver.ml -o driver_prof", cwd=prof, timeout=900)
     open(stamp, "w").write(h)
 
 
@@ -175,9 +181,9 @@ def proof_audit(prop):
         return ok, 0, 0, details + ["no theorem registered for this property yet"], []
     if not os.path.exists(pin):
         return False, len(thms), 0, details + ["missing pin file " + pin], []
-    vo = os.path.join(COQ, "Props", prop + ".vo")
-    if not os.path.exists(vo):
-        return False, len(thms), 0, details + ["Props/%s.vo was not built (proof broken); see build/coq-build.log" % prop], []
+    for pf in re.findall(r"VT\.Props\.(\w+)", open(pin).read()):
+        if not os.path.exists(os.path.join(COQ, "Props", pf + ".vo")):
+            return False, len(thms), 0, details + ["Props/%s.vo was not built (proof broken); see build/coq-build.log" % pf], []
     # the pin file restates every theorem (Check name : statement) and prints its assumptions
     tmp = os.path.join(BUILD, "pins")
     os.makedirs(tmp, exist_ok=True)
@@ -348,11 +354,14 @@ def gen_family(fam, seed, count, workdir, nshards):
     per = max(1, (count + nshards - 1) // nshards)
     files = []
     procs = []
+    # the deterministic dispatch table is enumerated, not sampled: the quick tier takes a window
+    # of it that moves with the seed, the thorough tier asks for more entries than it has (= all)
+    base = (seed * count) % 39903 if fam == "table" and count < 39903 else 0
     for s in range(nshards):
-        first = s * per
-        if first >= count:
+        first = base + s * per
+        if first - base >= count:
             break
-        n = min(per, count - first)
+        n = min(per, count - (first - base))
         path = os.path.join(workdir, "%s-%d.script" % (fam, s))
         procs.append(subprocess.Popen([os.path.join(BIN, "gen"), fam, str(seed), str(n), path, str(first)]))
         files.append(path)
@@ -407,6 +416,142 @@ def run_oracle(prop, script_files, seed, tier, workdir):
                 except ValueError:
                     pass
     return fails, stats, known
+
+
+def hexlist(h):
+    return "[" + "; ".join(str(int(h[i:i + 2], 16)) for i in range(0, len(h), 2)) + "]"
+
+
+def three_way(all_scripts, work, limit=200):
+    """Thorough tier: evaluate a sample of cases with Coq's vm_compute on the Gallina model and compare
+    the fingerprints with those of the extracted OCaml model (Fingerprint.v)."""
+    ids = [cid for cid, lines in all_scripts.items()
+           if lines and lines[0].startswith("NEW") and not any(l.startswith(("VNEW", "VP")) for l in lines)]
+    ids = ids[:limit]
+    if not ids:
+        return 0, []
+    # OCaml side
+    sp = os.path.join(work, "fp.script")
+    with open(sp, "w") as f:
+        for cid in ids:
+            f.write("CASE %s\n" % cid)
+            for l in all_scripts[cid]:
+                if l.split()[0] in ("NEW", "P", "W", "SIZE", "SB"):
+                    f.write(l + "\n")
+            f.write("FP\n")
+    rc, out = run("ulimit -s unlimited 2>/dev/null; %s %s" % (os.path.join(OCAML, "driver"), sp), timeout=600)
+    ml = {}
+    cur = None
+    for line in out.splitlines():
+        if line.startswith("CASE "):
+            cur = line[5:].strip()
+        elif line.startswith("FP ") and cur:
+            ml[cur] = line[3:].split()
+        elif line.startswith("PANIC") and cur:
+            ml.setdefault(cur, ["PANIC"])
+    # Coq side, sharded
+    shards = [ids[i::8] for i in range(8)]
+    procs = []
+    for k, sh in enumerate(shards):
+        if not sh:
+            continue
+        vp = os.path.join(work, "cases%d.v" % k)
+        with open(vp, "w") as f:
+            f.write("Require Import VT.Base VT.Parser VT.Fingerprint.\nOpen Scope N_scope.\nSet Printing Width 2000.\nSet Printing Depth 100000.\n")
+            for j, cid in enumerate(sh):
+                lines = all_scripts[cid]
+                nf = lines[0].split()
+                ops = []
+                for l in lines[1:]:
+                    w = l.split()
+                    if w[0] == "P":
+                        ops.append("OpProcess %s" % hexlist(w[1] if len(w) > 1 else ""))
+                    elif w[0] == "W":
+                        ops.append("OpWrite %s" % hexlist(w[1] if len(w) > 1 else ""))
+                    elif w[0] == "SIZE":
+                        ops.append("OpSetSize %s %s" % (w[1], w[2]))
+                    elif w[0] == "SB":
+                        ops.append("OpSetScrollback %s" % w[1])
+                f.write("Goal True. let v := eval vm_compute in (fp_case %s %s %s %s [%s]) in idtac \"FPC %d\" v. Abort.\n" % (
+                    nf[1], nf[2], nf[3], "true" if nf[4] == "1" else "false", "; ".join(ops), j))
+        procs.append((sh, subprocess.Popen(["coqc", "-q", "-noglob", "-R", COQ, "VT", vp], cwd=work,
+                                           stdout=subprocess.PIPE, stderr=subprocess.STDOUT, text=True)))
+    bad = []
+    n = 0
+    for sh, p in procs:
+        try:
+            out, _ = p.communicate(timeout=1500)
+        except subprocess.TimeoutExpired:
+            p.kill()
+            bad.append(("?", "coqc timeout"))
+            continue
+        for m in re.finditer(r"FPC (\d+) \[([^\]]*)\]", out):
+            cid = sh[int(m.group(1))]
+            coqv = [x.strip() for x in m.group(2).split(";")]
+            n += 1
+            if ml.get(cid) != coqv and ml.get(cid) != ["PANIC"]:
+                bad.append((cid, "coq %s vs ocaml %s" % (coqv, ml.get(cid))))
+            if ml.get(cid) == ["PANIC"] and coqv[0] == "2":
+                bad.append((cid, "coq %s vs ocaml PANIC" % coqv))
+        if "Error" in out:
+            bad.append(("?", out[-400:]))
+    return n, bad
+
+
+def model_coverage(script_files, work, funcs, max_files=4):
+    """Thorough tier: run the ocamlprof-instrumented extracted model on a sample of the scripts and
+    report which branches of the model functions in the property's projection were never reached."""
+    prof = os.path.join(OCAML, "prof")
+    exe = os.path.join(prof, "driver_prof")
+    if not os.path.exists(exe):
+        return None
+    cdir = os.path.join(work, "cov")
+    os.makedirs(cdir, exist_ok=True)
+    for f in script_files[:max_files]:
+        run("ulimit -s unlimited 2>/dev/null; cd %s && %s %s > /dev/null" % (cdir, exe, f), timeout=900)
+    if not os.path.exists(os.path.join(cdir, "ocamlprof.dump")):
+        return None
+    rc, out = run("cd %s && ocamlprof -f ocamlprof.dump %s" % (cdir, os.path.join(prof, "model.ml")), timeout=300)
+    cur, total, zero, per = None, 0, 0, {}
+    for line in out.splitlines():
+        m = re.match(r"^(?:let rec|let|and)\s+(\w+)", line)
+        if m:
+            cur = m.group(1)
+        n_all = len(re.findall(r"\(\* \d+ \*\)", line))
+        n_zero = line.count("(* 0 *)")
+        if cur and n_all:
+            t, z = per.get(cur, (0, 0))
+            per[cur] = (t + n_all, z + n_zero)
+    sel = {k: v for k, v in per.items() if (not funcs) or k in funcs}
+    return {"functions": len(sel), "points": sum(t for t, z in sel.values()),
+            "unreached_points": sum(z for t, z in sel.values()),
+            "functions_with_unreached": sorted(k for k, (t, z) in sel.items() if z)[:40]}
+
+
+PROBE_SUFFIXES = [
+    "0a" * 70,                                   # line feeds past any bottom margin
+    "78" * 300,                                  # printable text: wraps and scrolls
+    "e4b896" * 150,                              # wide characters
+    "1b4d" * 70,                                 # reverse index past any top margin
+    "1b5b3939393b39393948" + "7878" + "0a0a",    # CUP far corner, print, LF
+    "1b5b48" + "1b5b39393942" + "0a0a78",        # home, CUD 999, LF, print
+    "1b38" + "7878" + "0a",                      # DECRC then print
+    "1b5b3f3130343968" + "78780a" + "1b5b3f313034396c" + "78780a",   # alt screen round trip
+    "1b5b4c1b5b4d1b5b531b5b54" + "1b5b401b5b50" + "78",               # IL DL SU SD ICH DCH
+    "1b5b324a1b5b4b1b5b58" + "78",               # ED 2, EL, ECH
+    "0d" + "78" * 40 + "08" * 50 + "09" * 30 + "78",                  # CR text BS TAB
+]
+
+
+def probe_cases(cid, lines):
+    """Extensions of a (shrunk) disagreeing script: the same prefix, then a probing suffix, then
+    every observer.  Used only for the failing-input search."""
+    base = [l for l in lines if l.split() and l.split()[0] not in ("DUMP", "OBS", "LOG")]
+    tail = ["OBS", "FMT contents", "FMT state", "TEXT", "ROWSF 0 65535", "ROWS 0 65535", "DUMP"]
+    out = []
+    for i, sfx in enumerate(PROBE_SUFFIXES):
+        out.append(("%s+probe%d" % (cid, i), base + ["P " + sfx] + tail))
+    return out
 
 
 def load_known_findings():
@@ -528,8 +673,42 @@ def check_property(prop, tier, seed, replay=None):
         for d in dis:
             disagreements.append(d)
 
+    # ---- input distribution (measured on this run's scripts and outputs)
+    op_hist, size_hist, byte_total, panic_cases = {}, {}, 0, 0
+    for cid, lines in all_scripts.items():
+        for l in lines:
+            w = l.split()
+            if not w:
+                continue
+            op_hist[w[0]] = op_hist.get(w[0], 0) + 1
+            if w[0] == "NEW":
+                r_, c_ = int(w[1]), int(w[2])
+                key = "1x1" if (r_, c_) == (1, 1) else "1-row/1-col" if 1 in (r_, c_) else "<=6x8" if r_ <= 6 and c_ <= 8 else "24x80" if (r_, c_) == (24, 80) else "50x132" if (r_, c_) == (50, 132) else "other"
+                size_hist[key] = size_hist.get(key, 0) + 1
+            elif w[0] in ("P", "W", "VP") and len(w) > 1:
+                byte_total += len(w[1]) // 2
+    for f in script_files:
+        panic_cases += results[f][1].count("\nPANIC")
+
     # ---- oracle on the same scripts
     ofails, ostats, oknown = run_oracle(prop, script_files, seed, tier, work)
+
+    # ---- thorough: Coq vm_compute vs extracted OCaml on a sample; independent re-check with coqchk
+    tw_n, tw_bad, chk_note, cov_info = 0, [], "", None
+    if tier == "thorough" and not replay:
+        tw_n, tw_bad = three_way(all_scripts, work)
+        for cid, msg in tw_bad[:5]:
+            notes.append("three-way mismatch %s: %s" % (cid, msg))
+        cov_info = model_coverage(script_files, work, set(info.get("model_functions", [])))
+        if info.get("theorems"):
+            pfs = re.findall(r"VT\.Props\.(\w+)", open(os.path.join(COQ, "Pins", prop + ".v")).read())
+            rc, out = run(["coqchk", "-silent", "-o", "-R", COQ, "VT"] + ["VT.Props.%s" % x for x in sorted(set(pfs))], cwd=COQ, timeout=3000)
+            tail = out.strip().splitlines()[-12:]
+            chk_note = " | ".join(tail)
+            if rc != 0:
+                notes.append("coqchk failed: " + chk_note[-600:])
+                audit_ok = False
+                audit_details.append("coqchk failed")
 
     # ---- known findings
     kf = [k for k in load_known_findings() if k.get("property") == prop]
@@ -550,10 +729,22 @@ def check_property(prop, tier, seed, replay=None):
             write_script(sp, [(cid, small)])
             of, _, ok_ = run_oracle(prop, [sp], seed, tier, work)
             of_full = [x for x in ofails if x[0] == cid]
+            probe_script = None
+            if not of and not of_full and small:
+                # the states differ but nothing observable is wrong yet: drive both on from the
+                # diverged state with probing suffixes and ask the oracle again
+                pcases = probe_cases(cid, small)
+                pp = os.path.join(work, "probe-%d.script" % seen)
+                write_script(pp, pcases)
+                pof, _, _ = run_oracle(prop, [pp], seed, tier, work)
+                if pof:
+                    of = pof[:3]
+                    pid = pof[0][0]
+                    probe_script = dict(pcases)[pid]
             rp = os.path.join(replay_dir, "%s-%s.json" % (prop, re.sub(r"[^A-Za-z0-9_.-]", "_", cid)))
             doc = {"property": prop, "kind": "model-implementation-disagreement",
                    "correspondence": P.PROPS[prop].get("projection", ""),
-                   "case": cid, "script": small, "original_script": lines,
+                   "case": cid, "script": probe_script or small, "disagreeing_script": small, "original_script": lines,
                    "first_difference": {"line": k, "model": a, "implementation": b},
                    "shrunk_difference": [{"line": x[1], "model": x[2], "implementation": x[3]} for x in dd[:1]],
                    "oracle_failures": [{"kind": x[1], "detail": x[2]} for x in (of + of_full)[:5]],
@@ -583,6 +774,11 @@ def check_property(prop, tier, seed, replay=None):
                        "case": cid, "script": all_scripts.get(cid, []),
                        "how_to_replay": "./check %s --replay %s" % (prop, rp)}, open(rp, "w"), indent=1)
             violations.append((rp, ""))
+    if tw_bad:
+        status = 1
+        rp = os.path.join(replay_dir, "%s-three-way.json" % prop)
+        json.dump({"property": prop, "kind": "extraction-mismatch", "details": tw_bad[:20]}, open(rp, "w"), indent=1)
+        violations.append((rp, " no-failing-input-found"))
     if not audit_ok:
         status = 1
         if not violations:
@@ -607,7 +803,9 @@ def check_property(prop, tier, seed, replay=None):
     write_evidence(prop, tier, seed, info, dict(evaluations=evaluations, distinct=len(hashes), samples=samples,
                    obligations=obligations, discharged=discharged, axioms=axioms, audit=audit_details,
                    stats=ostats, fam_counts=fam_counts, disagreements=len(disagreements),
-                   known=[k["text"] for k in kf], known_hits=len(oknown), oracle_failures=len(ofails)),
+                   known=[k["text"] for k in kf], known_hits=len(oknown), oracle_failures=len(ofails),
+                   three_way=tw_n, coqchk=chk_note, op_hist=op_hist, size_hist=size_hist,
+                   byte_total=byte_total, panic_cases=panic_cases, cov_info=cov_info),
                    len(violations), wall)
     log("%s %s: %d cases, %d distinct non-trivial, %d disagreements, %d oracle failures, audit %s, %.1fs" % (
         prop, tier, evaluations, len(hashes), len(disagreements), len(ofails), "ok" if audit_ok else "BROKEN", wall))
@@ -632,6 +830,11 @@ def write_evidence(prop, tier, seed, info, c, nviol, wall):
         "oracle_failures": c.get("oracle_failures", 0),
         "known_findings": c["known"],
         "known_class_hits": c.get("known_hits", 0),
+        "three_way_cases_coq_vm_compute_vs_ocaml": c.get("three_way", 0),
+        "input_distribution": {"script_ops": c.get("op_hist", {}), "screen_sizes": c.get("size_hist", {}),
+                               "payload_bytes": c.get("byte_total", 0), "cases_ending_in_panic": c.get("panic_cases", 0)},
+        "coqchk": c.get("coqchk", ""),
+        "model_branch_coverage": c.get("cov_info"),
         "audit_notes": c["audit"],
         "theorems": thms,
         "axioms_reported": c["axioms"],
